@@ -271,7 +271,28 @@ pub fn gen_c06_cuckoo_loaded(ctx: &mut Ctx, ncases: u64) {
         let sa = stream(ctx, &keys.univ, na);
         let sb = stream(ctx, &keys.univ, nb);
         let sa = feed_ok(ctx, f, 1, &sa);
-        let sb = feed_ok(ctx, f, 2, &sb);
+        let mut sb = feed_ok(ctx, f, 2, &sb);
+        // B's own history may contain deletions (holes in front of stored fingerprints)
+        if ctx.rng.chance(1, 2) {
+            let nd = 1 + ctx.rng.below(sb.len() as u64 / 2 + 1);
+            for _ in 0..nd {
+                if sb.is_empty() {
+                    break;
+                }
+                let idx = ctx.rng.below(sb.len() as u64) as usize;
+                let a = ctx.op(format!("cuckoo.delete 2 {}", sb[idx]));
+                if a == "true" {
+                    sb.remove(idx);
+                    ctx.stat("c06.cuckoo.loaded.deleted", 1);
+                }
+            }
+            // and refills after the deletions
+            if ctx.rng.chance(1, 2) {
+                let ne = 1 + ctx.rng.below(3);
+                let extra = stream(ctx, &keys.univ, ne);
+                sb.extend(feed_ok(ctx, f, 2, &extra));
+            }
+        }
         let ok = feed(ctx, f, 3, &sa) && feed(ctx, f, 3, &sb);
         ctx.op("cuckoo.clone 2 4".into());
         let a = ctx.op("cuckoo.union 1 2".into());
@@ -308,6 +329,136 @@ fn unchanged_check(ctx: &mut Ctx, st: &str, i: u64, j: u64, univ: &[u64]) {
     }
 }
 
+/// A failing insert, then deletions, then further failing inserts / a failing union without any
+/// successful insert in between: whatever a failed call leaves behind internally (an undo log,
+/// scratch state) must not leak into the next failure's rollback.
+fn c12_cuckoo_fail_delete_fail(ctx: &mut Ctx, round: u64) {
+    ctx.case("c12.cuckoo.fdf");
+    let bh = ctx.rand_hasher();
+    ctx.hasher(bh);
+    // small fingerprints and few buckets make the bucket graph fall apart into components, so
+    // that inserts keep failing although slots are free elsewhere
+    let c = match round % 3 {
+        0 => CuckooCfg { bs: *ctx.rng.pick(&[2u64, 4]), nb: 2, lf: *ctx.rng.pick(&[2u64, 3, 8]) },
+        1 => CuckooCfg { bs: 2, nb: *ctx.rng.pick(&[4u64, 8, 16]), lf: *ctx.rng.pick(&[2u64, 3, 8]) },
+        _ => cuckoo_cfg(ctx),
+    };
+    let cap = c.bs * c.nb;
+    cuckoo_new(ctx, 1, &c);
+    cuckoo_new(ctx, 2, &c);
+    let keys = Keys::new(ctx, 4 * cap + 6);
+    let mut held: Vec<u64> = vec![];
+    // fill until the first failure
+    let mut guard = 0;
+    let mut failed = false;
+    while guard < 8 * cap + 40 {
+        guard += 1;
+        let k = keys.pick(ctx);
+        ctx.op("cuckoo.clone 1 9".into());
+        let a = ctx.op(format!("cuckoo.insert 1 {}", k));
+        if a == "true" {
+            held.push(k);
+        } else if a == "full" {
+            failed = true;
+            unchanged_check(ctx, "cuckoo", 1, 9, &keys.univ);
+            break;
+        }
+    }
+    if !failed {
+        return;
+    }
+    let nb_el = ctx.rng.range(cap / 2 + 1, cap + 2);
+    for _ in 0..nb_el {
+        let kk = keys.pick(ctx);
+        ctx.op(format!("cuckoo.insert 2 {}", kk));
+    }
+    for _step in 0..6 {
+        // deletions of held elements
+        let nd = ctx.rng.range(1, 3);
+        for _ in 0..nd {
+            if held.is_empty() {
+                break;
+            }
+            let idx = ctx.rng.below(held.len() as u64) as usize;
+            let a = ctx.op(format!("cuckoo.delete 1 {}", held[idx]));
+            if a == "true" {
+                held.remove(idx);
+            }
+        }
+        // failing calls: try keys until one fails (successes are kept, they belong to the history)
+        let mut hit = false;
+        if ctx.rng.chance(1, 3) {
+            ctx.op("cuckoo.clone 1 9".into());
+            let a = ctx.op("cuckoo.union 1 2".into());
+            if a == "full" {
+                hit = true;
+                ctx.stat("c12.cuckoo.fdf.union.full", 1);
+                unchanged_check(ctx, "cuckoo", 1, 9, &keys.univ);
+            } else if a == "ok" {
+                // everything B held is now in A as well (not tracked key by key)
+                break;
+            }
+        }
+        for _ in 0..(cap + 4) {
+            if hit {
+                break;
+            }
+            let k = keys.pick(ctx);
+            ctx.op("cuckoo.clone 1 9".into());
+            let a = ctx.op(format!("cuckoo.insert 1 {}", k));
+            if a == "full" {
+                hit = true;
+                ctx.stat("c12.cuckoo.fdf.insert.full", 1);
+                unchanged_check(ctx, "cuckoo", 1, 9, &keys.univ);
+            } else if a == "true" {
+                held.push(k);
+            }
+        }
+    }
+}
+
+/// Failing inserts into a table large enough that the eviction walk (500 kicks) ends on a slot it
+/// has not visited before; every element accepted earlier must survive each rejected insert.
+pub fn cuckoo_big_full(ctx: &mut Ctx, ncases: u64) {
+    for _ in 0..ncases {
+        ctx.case("cuckoo.big");
+        let bh = ctx.rand_hasher();
+        ctx.hasher(bh);
+        let c = CuckooCfg { bs: *ctx.rng.pick(&[3u64, 4, 4]), nb: *ctx.rng.pick(&[32u64, 64]), lf: *ctx.rng.pick(&[12u64, 16, 24, 32]) };
+        let cap = c.bs * c.nb;
+        cuckoo_new(ctx, 1, &c);
+        let mut held: Vec<u64> = vec![];
+        let mut fulls = 0;
+        let mut tries = 0;
+        while fulls < 12 && tries < cap + 60 {
+            tries += 1;
+            let k = ctx.rng.next() >> 8;
+            let a = ctx.op(format!("cuckoo.insert 1 {}", k));
+            if a == "true" {
+                held.push(k);
+            } else if a == "full" {
+                fulls += 1;
+                ctx.stat("cuckoo.insert.full", 1);
+                ctx.stat("cuckoo.big.insert.full", 1);
+                ctx.op("cuckoo.len 1".into());
+                ctx.op(format!("cuckoo.query 1 {}", k));
+            }
+        }
+        for k in &held {
+            ctx.op(format!("cuckoo.query 1 {}", k));
+        }
+        // every accepted element can be deleted exactly as often as it was accepted
+        for k in &held {
+            let a = ctx.op(format!("cuckoo.delete 1 {}", k));
+            if a == "true" {
+                ctx.stat("cuckoo.delete.true", 1);
+            }
+        }
+        ctx.op("cuckoo.len 1".into());
+        ctx.op("cuckoo.empty 1".into());
+    }
+}
+
 pub fn gen_c12(ctx: &mut Ctx) {
     for round in 0..(30 * ctx.tier_scale) {
         // ---- cuckoo: failing inserts after evictions -------------------------------------
@@ -339,6 +490,8 @@ pub fn gen_c12(ctx: &mut Ctx) {
                 ctx.op(format!("cuckoo.delete 1 {}", d));
             }
         }
+        // ---- cuckoo: failure, deletions, failure again (no successful insert in between) ---
+        c12_cuckoo_fail_delete_fail(ctx, round);
         // ---- cuckoo: failing union at first / middle / last transferred fingerprint -------
         ctx.case("c12.cuckoo.union");
         let bh = ctx.rand_hasher();
@@ -430,7 +583,62 @@ pub fn gen_c12(ctx: &mut Ctx) {
             ctx.op("both qf.len 1 9".into());
         }
         unchanged_check(ctx, "qf", 2, 8, &univ);
+
+        // ---- quotient filter: operands with a shared ancestor ("clone, then diverge") -----------
+        // every cluster head of B is already in A, the new fingerprints sit in shifted slots
+        ctx.case("c12.qf.shared");
+        ctx.hasher(ScriptBH::xor());
+        let (q, r) = (ctx.rng.range(2, 4), ctx.rng.range(2, 5));
+        let cap = 1u64 << q;
+        ctx.op(format!("qf.new 1 {} {}", q, r));
+        ctx.op(format!("qf.new 2 {} {}", q, r));
+        let mut univ = vec![];
+        let nbase = ctx.rng.range(1, cap / 2);
+        let mut base_quos = vec![];
+        for _ in 0..nbase {
+            let quo = ctx.rng.below(cap);
+            let k = qf_key(ctx, q, r, quo, 0);
+            univ.push(k);
+            base_quos.push(quo);
+            ctx.op(format!("qf.insert 1 {}", k));
+            ctx.op(format!("qf.insert 2 {}", k));
+        }
+        let nextra = ctx.rng.range(1, 3);
+        for _ in 0..nextra {
+            let quo = *ctx.rng.pick(&base_quos);
+            let rem = ctx.rng.range(1, (1u64 << r) - 1);
+            let k = qf_key(ctx, q, r, quo, rem);
+            univ.push(k);
+            ctx.op(format!("qf.insert 2 {}", k));
+        }
+        let free = ctx.rng.below(nextra + 1);
+        let mut guard = 0;
+        loop {
+            guard += 1;
+            let len: u64 = ctx.op("qf.len 1".into()).parse().unwrap_or(cap);
+            if len + free >= cap || guard > 6 * cap {
+                break;
+            }
+            let quo = ctx.rng.below(cap);
+            let rem = ctx.rng.range(1, (1u64 << r) - 1);
+            let k = qf_key(ctx, q, r, quo, rem);
+            univ.push(k);
+            ctx.op(format!("qf.insert 1 {}", k));
+        }
+        ctx.op("qf.clone 1 9".into());
+        ctx.op("qf.clone 2 8".into());
+        let a = ctx.op("qf.union 1 2".into());
+        ctx.stat(&format!("c12.qf.shared.union.{}", a), 1);
+        if a == "full" {
+            unchanged_check(ctx, "qf", 1, 9, &univ);
+            let quo = ctx.rng.below(cap);
+            let k = qf_key(ctx, q, r, quo, 1);
+            ctx.op(format!("both qf.insert 1 9 {}", k));
+            ctx.op("both qf.len 1 9".into());
+        }
+        unchanged_check(ctx, "qf", 2, 8, &univ);
     }
+    cuckoo_big_full(ctx, 2 * ctx.tier_scale);
 }
 
 pub fn gen_c13(ctx: &mut Ctx) {
@@ -466,6 +674,7 @@ pub fn gen_c14(ctx: &mut Ctx) {
         ctx.case("cuckoo");
         cuckoo_history(ctx, 260);
     }
+    cuckoo_big_full(ctx, 4 * ctx.tier_scale);
 }
 
 /// one extreme RNG word (all ones / all zeros) at every possible call position of a short run
@@ -511,11 +720,42 @@ pub fn gen_c18(ctx: &mut Ctx) {
     res_extreme_sweep(ctx);
 }
 
+/// Very long histories (more than 2^16 and 2^17 windows) with tiny widths, then newcomers: an
+/// element that shows up twice inside one window must stay tracked, and one that becomes frequent
+/// afterwards must be reported, however many windows have gone by.
+pub fn lossy_long(ctx: &mut Ctx, ncases: u64) {
+    for c in 0..ncases {
+        ctx.case("lossy.long");
+        let w = 1 + (c % 3);
+        ctx.op(format!("lossy.neww 1 {}", w));
+        ctx.op("lossy.getters 1".into());
+        let windows = *ctx.rng.pick(&[65_540u64, 66_000, 131_080, 70_000]);
+        let n0 = windows * w + ctx.rng.below(w);
+        ctx.op(format!("lossy.addrep 1 7 {}", n0));
+        ctx.op(format!("lossy.query 1 {}", fx(0.0)));
+        // newcomers: pairs inside one window, singletons, and a burst
+        for t in 0..(12 * w + 20) {
+            let key = 1000 + (t / 2) % 5;
+            ctx.op(format!("lossy.add 1 {}", key));
+            if t % 3 == 0 {
+                ctx.op(format!("lossy.query 1 {}", fx(0.0)));
+            }
+        }
+        let burst = n0 + 50;
+        ctx.op(format!("lossy.addrep 1 4242 {}", burst));
+        ctx.op(format!("lossy.query 1 {}", fx(0.0)));
+        ctx.op(format!("lossy.query 1 {}", fx(0.5)));
+        ctx.op("lossy.n 1".into());
+        ctx.stat("lossy.long", 1);
+    }
+}
+
 pub fn gen_c09(ctx: &mut Ctx) {
     for _ in 0..(60 * ctx.tier_scale) {
         ctx.case("lossy");
         lossy_history(ctx, 400);
     }
+    lossy_long(ctx, 3 * ctx.tier_scale.min(4));
 }
 
 /// collision-free sketches, tiny k, bursty streams over a tiny alphabet: elements are incremented
@@ -595,6 +835,10 @@ pub fn gen_td(ctx: &mut Ctx, n: u64) {
         let q = fx(ctx.rng.f01());
         ctx.op(format!("td.quantile 1 {}", q));
         ctx.op(format!("td.quantile 1 {}", q));
+    }    // heavy weighted atoms exactly at max() / min(), spread over several centroids
+    for c in 0..(10 * ctx.tier_scale.min(4)) {
+        ctx.case("td.atom");
+        td_history_shaped(ctx, n.min(200), Some(c % 2 == 0));
     }
 }
 
@@ -623,6 +867,22 @@ pub fn gen_c19(ctx: &mut Ctx) {
             feed(ctx, f, 3, &more); // mutate the copy
             ctx.op(format!("{}.clear 3", f.name));
             observe_both(ctx, f, 1, 5, &keys.univ); // the original is unaffected
+            // a copy evolves exactly like the original under the same further operations
+            // (clone() and clone_from() into an instance that already holds something else)
+            ctx.op(format!("{}.clone 1 6", f.name));
+            fam_new(ctx, f, 7, &cfg);
+            let other = stream(ctx, &keys.univ, 3);
+            feed(ctx, f, 7, &other);
+            ctx.op(format!("{}.clonefrom 7 1", f.name));
+            observe_both(ctx, f, 1, 7, &keys.univ);
+            let ncopy = if f.name == "cuckoo" { 4 } else { 8 };
+            for _ in 0..ncopy {
+                let k = keys.pick(ctx);
+                ctx.op(format!("both {} 1 6 {}", f.add, k));
+                ctx.op(format!("{} 7 {}", f.add, k));
+            }
+            observe_both(ctx, f, 1, 6, &keys.univ);
+            observe_both(ctx, f, 1, 7, &keys.univ);
             // clear vs fresh, then the same continuation on both
             ctx.op(format!("{}.clear 1", f.name));
             observe_both(ctx, f, 1, 2, &keys.univ);
@@ -662,6 +922,24 @@ pub fn gen_c19(ctx: &mut Ctx) {
             for _ in 0..npre {
                 ctx.op(format!("td.insert 1 {}", fx(ctx.rng.clone().f01() * 100.0)));
             }
+            // a copy evolves exactly like the original
+            ctx.op("td.clone 1 5".into());
+            ctx.op(format!("td.new 6 {} {} {}", scale, fx(delta), bl));
+            ctx.op(format!("td.insert 6 {}", fx(-5.0)));
+            ctx.op("td.clonefrom 6 1".into());
+            for _ in 0..ctx.rng.clone().range(5, 120) {
+                let x = ctx.rng.f01() * 120.0 - 10.0;
+                ctx.op(format!("both td.insert 1 5 {}", fx(x)));
+                ctx.op(format!("td.insert 6 {}", fx(x)));
+            }
+            for j in [5, 6] {
+                for o in ["td.empty", "td.count", "td.sum", "td.min", "td.max", "td.ncent"] {
+                    ctx.op(format!("both {} 1 {}", o, j));
+                }
+                for i in 0..=4 {
+                    ctx.op(format!("both td.quantile 1 {} {}", j, fx(i as f64 / 4.0)));
+                }
+            }
             ctx.op("td.clone 1 3".into());
             ctx.op("td.clone 1 4".into());
             ctx.op(format!("td.insert 1 {}", fx(1e6)));
@@ -695,6 +973,20 @@ pub fn gen_c19(ctx: &mut Ctx) {
         for i in 0..npre {
             ctx.op(format!("res.add 1 {}", i));
         }
+        // a copy (same RNG state) evolves exactly like the original, in every sampling phase
+        ctx.op("res.clone 1 5".into());
+        ctx.op(format!("res.new 6 {} 99", k));
+        ctx.op("res.add 6 5".into());
+        ctx.op("res.clonefrom 6 1".into());
+        for i in 0..(6 * k + 10) {
+            ctx.op(format!("both res.add 1 5 {}", 5000 + i));
+            ctx.op(format!("res.add 6 {}", 5000 + i));
+            if i % 4 == 0 {
+                ctx.op("both res.get 1 5".into());
+            }
+        }
+        ctx.op("both res.get 1 5".into());
+        ctx.op("both res.get 1 6".into());
         ctx.op("res.clone 1 3".into());
         ctx.op("res.clone 1 4".into());
         ctx.op("res.add 1 777".into());
@@ -717,6 +1009,18 @@ pub fn gen_c19(ctx: &mut Ctx) {
         for _ in 0..ctx.rng.clone().below(200) {
             ctx.op(format!("lossy.add 1 {}", ctx.rng.clone().below(9)));
         }
+        ctx.op("lossy.clone 1 5".into());
+        ctx.op(format!("lossy.neww 6 {}", w));
+        ctx.op("lossy.add 6 3".into());
+        ctx.op("lossy.clonefrom 6 1".into());
+        for _ in 0..(2 * w + 5) {
+            let k = ctx.rng.below(9);
+            ctx.op(format!("both lossy.add 1 5 {}", k));
+            ctx.op(format!("lossy.add 6 {}", k));
+        }
+        ctx.op(format!("both lossy.query 1 5 {}", fx(0.0)));
+        ctx.op(format!("both lossy.query 1 6 {}", fx(0.0)));
+        ctx.op("both lossy.n 1 6".into());
         ctx.op("lossy.clone 1 3".into());
         ctx.op("lossy.clone 1 4".into());
         ctx.op("lossy.add 1 4242".into());
@@ -749,6 +1053,17 @@ pub fn gen_c19(ctx: &mut Ctx) {
             let id = ctx.rng.below(8);
             add(ctx, "heap.add 1", id);
         }
+        ctx.op("heap.clone 1 5".into());
+        ctx.op(format!("heap.new 6 {} {} {}", k, w, d));
+        add(ctx, "heap.add 6", 5);
+        ctx.op("heap.clonefrom 6 1".into());
+        for _ in 0..30 {
+            let id = ctx.rng.below(12);
+            add(ctx, "both heap.add 1 5", id);
+            add(ctx, "heap.add 6", id);
+            ctx.op("both heap.iter 1 5".into());
+        }
+        ctx.op("both heap.iter 1 6".into());
         ctx.op("heap.clone 1 3".into());
         ctx.op("heap.clone 1 4".into());
         add(ctx, "heap.add 1", 99);
@@ -779,6 +1094,14 @@ pub fn gen_c20(ctx: &mut Ctx) {
         }
         let doc = ctx.op("hll.ser 1".into());
         ctx.op(format!("hll.deser 2 {}", doc));
+        if ctx.rng.chance(1, 3) {
+            // the same values as a positional document: an error, or an equal sketch
+            let a = ctx.op(format!("hll.deser 4 A {}", doc));
+            if a == "ok" {
+                ctx.op("both hll.regs 1 4".into());
+                ctx.op("both hll.count 1 4".into());
+            }
+        }
         ctx.op("both hll.regs 1 2".into());
         ctx.op("both hll.count 1 2".into());
         ctx.op("both hll.empty 1 2".into());
@@ -803,12 +1126,15 @@ pub fn gen_c20(ctx: &mut Ctx) {
             let order = ctx.rng.below(3);
             let mut fields = vec![format!("R:{}", regs.join(",")), format!("B:{}", b), "H:1,0,64,0".to_string()];
             fields.rotate_left(order as usize);
-            let a = ctx.op(format!("hll.deser 1 {}", fields.join(" ")));
-            ctx.stat(&format!("c20.deser.{}", a), 1);
-            if a == "ok" {
-                ctx.op("hll.regs 1".into());
-                ctx.op("hll.addh 1 12345".into());
-                ctx.op("hll.count 1".into());
+            // as an object and as a positional (array) document
+            for form in ["", "A "] {
+                let a = ctx.op(format!("hll.deser 1 {}{}", form, fields.join(" ")));
+                ctx.stat(&format!("c20.deser.{}{}", if form.is_empty() { "" } else { "array." }, a), 1);
+                if a == "ok" {
+                    ctx.op("hll.regs 1".into());
+                    ctx.op("hll.addh 1 12345".into());
+                    ctx.op("hll.count 1".into());
+                }
             }
         }
     }
@@ -846,8 +1172,9 @@ pub fn gen_c20(ctx: &mut Ctx) {
             8 => fields.swap(1, 2),
             _ => {}
         }
-        let a = ctx.op(format!("hll.deser 1 {}", fields.join(" ")));
-        ctx.stat(&format!("c20.deser.{}", a), 1);
+        let form = if ctx.rng.chance(1, 4) { "A " } else { "" };
+        let a = ctx.op(format!("hll.deser 1 {}{}", form, fields.join(" ")));
+        ctx.stat(&format!("c20.deser.{}{}", if form.is_empty() { "" } else { "array." }, a), 1);
         if a == "ok" {
             ctx.op("hll.regs 1".into());
             ctx.op(format!("hll.addh 1 {}", ctx.rng.clone().next()));
@@ -893,13 +1220,19 @@ pub fn gen_c03(ctx: &mut Ctx) {
         ctx.case("c03.arbitrary");
         let b = ctx.rng.range(4, 10);
         let m = 1u64 << b;
-        let mode = ctx.rng.below(4);
+        let mode = ctx.rng.below(7);
+        // modes 4-6: every register large, i.e. raw estimates far beyond anything a stream of
+        // adds reaches in a test (2^25 .. 2^62 and more): count() is a function of the registers
+        let base = *ctx.rng.pick(&[18u64, 22, 25, 27, 28, 30, 34, 40, 50, 58, 64, 100, 200]);
         let regs: Vec<String> = (0..m)
             .map(|_| match mode {
                 0 => ctx.rng.below(256),
                 1 => ctx.rng.below(2) * 255,
                 2 => ctx.rng.below(4),
-                _ => if ctx.rng.chance(1, 10) { ctx.rng.below(60) } else { 0 },
+                3 => if ctx.rng.chance(1, 10) { ctx.rng.below(60) } else { 0 },
+                4 => base,
+                5 => base + ctx.rng.below(4),
+                _ => if ctx.rng.chance(1, 50) { ctx.rng.below(base) } else { base },
             }.to_string())
             .collect();
         ctx.op(format!("hll.with 1 {} {}", b, regs.join(" ")));
